@@ -118,6 +118,7 @@ func (encryptor *HashQuery) OnQuery(ctx context.Context, query mysql.OnQueryObje
 		// to escape from this ambiguity added explicit casting search hash to bytes;
 		// the result expression will look like `convert(substr(searchable_column, ...), binary) = 0xFFFFF`
 		// but previously we had `substr(searchable_column, ...) = X'some_value'`
+		var hexNumLiteral *sqlparser.SQLVal
 		if rVal, ok := item.Expr.Right.(*sqlparser.SQLVal); ok && rVal.Type != sqlparser.ValArg {
 			item.Expr.Left = &sqlparser.ConvertExpr{
 				Expr: item.Expr.Left,
@@ -125,13 +126,19 @@ func (encryptor *HashQuery) OnQuery(ctx context.Context, query mysql.OnQueryObje
 					Type: "binary",
 				},
 			}
-
-			rVal.Type = sqlparser.HexNum
+			hexNumLiteral = rVal
 		}
 
 		// substring(column, 1, <HMAC_size>) = 'value' ===> substring(column, 1, <HMAC_size>) = <HMAC('value')>
 		// substring(column, 1, <HMAC_size>) = $1      ===> no changes
-		err := mysql.UpdateExpressionValue(ctx, item.Expr.Right, encryptor.coder, item.Setting, encryptor.calculateHmac)
+		err := mysql.UpdateExpressionValue(ctx, item.Expr.Right, encryptor.coder, item.Setting, func(ctx context.Context, data []byte) ([]byte, error) {
+			mac, err := encryptor.calculateHmac(ctx, data)
+			if err == nil && hexNumLiteral != nil {
+				// The literal has been decoded as the client wrote it; only its replacement is a hex number.
+				hexNumLiteral.Type = sqlparser.HexNum
+			}
+			return mac, err
+		})
 		if err != nil {
 			logrus.WithError(err).Debugln("Failed to update expression")
 			return query, false, err
